@@ -47,4 +47,12 @@ package graphsync
 //@   modifies nothing
 //@   ensures result1 == nil ==> len(b) == 16
 //@   ensures len(b) == 16 ==> result1 == nil
-//@   trusts result1 == nil ==> ridBytesLen(result0) == len(b)
+//@   trusts result1 == nil ==> ridBytesLen(result0) == len(b) && result0 == ridOf(b)
+//@ -- C11: the bytes of a request ID and back (the type is opaque here: RequestID{string(b)} / []byte(r.string))
+//@ fn ridBytes(id ref) []byte
+//@ fn ridOf(b []byte) ref
+//@ axiom rid_inv: forall id ref {ridBytes(id)} :: ridOf(ridBytes(id)) == id
+//@ func RequestID.Bytes
+//@   assumed
+//@   modifies nothing
+//@   ensures result == ridBytes(r)
